@@ -444,9 +444,15 @@ def setup():
 
 def replay_cmd(path):
     path = os.path.abspath(path)
-    ff = json.load(open(path))
-    prop = ff["property"]
-    u = unit_of_test(prop, ff["test"])
+    if os.path.basename(path).startswith("fuzz-"):
+        # a saved native-fuzz input: fuzz-<FuzzTarget>-<hash>; the target names the property
+        name = os.path.basename(path).split("-")[1]
+        prop = next((p for p in PROPS if unit_of_test(p, name) is not None), None)
+        u = unit_of_test(prop, name) if prop else None
+    else:
+        ff = json.load(open(path))
+        prop = ff["property"]
+        u = unit_of_test(prop, ff["test"])
     if u is None or not build(u["pkg"], bool(u.get("race"))):
         return 2
     workdir = os.path.join(ROOT, ".work", "replay-%d" % os.getpid())
